@@ -4,6 +4,22 @@
 C11_HARN = ["VerifC11Arith", "VerifC11Mod", "VerifC11Rel", "VerifC11Logic", "VerifC11Shift", "VerifC11Unary", "VerifC11Eq", "VerifC11IntFloatEq", "VerifC11Index"]
 
 CHECKS = {
+    "C01": {
+        "runs": [
+            {"harness": ["internal/vsess.VerifC01Expr"], "pkgs": ["./internal/vsess"], "fuel": 6000000,
+             "params_quick": {"budget": 1, "nops": 4, "leaves": 3, "polykinds": 3, "fam_hi": 0}, "params_thorough": {"budget": 2, "nops": 6, "leaves": 5, "fam_hi": 0},
+             "covers": {"VerifC01Expr": ["value", "runtime-error"]}},
+            {"harness": ["internal/vsess.VerifC01Expr"], "pkgs": ["./internal/vsess"], "fuel": 6000000,
+             "params_quick": {"budget": 1, "chain": 2, "treeops": 3, "nops": 3, "leaves": 2, "polykinds": 3, "fam_lo": 1, "ctx3": 1},
+             "params_thorough": {"budget": 1, "chain": 3, "treeops": 4, "nops": 6, "leaves": 4, "fam_lo": 1},
+             "covers": {"VerifC01Expr": ["value", "runtime-error"]}},
+            {"harness": ["internal/vsess.VerifC01Stmt"], "pkgs": ["./internal/vsess"], "fuel": 6000000,
+             "params_quick": {"sdepth": 1, "polykinds": 3}, "params_thorough": {"sdepth": 2},
+             "covers": {"VerifC01Stmt": ["value", "runtime-error"]}},
+        ],
+        "bound_text": "expression families (<= budget operator/wrapper nodes, sandwiches, chains, e-op-e, all operator trees with <= treeops operators, if/else) in 16 embeddings; statement trees of depth <= 1 (quick) / 2 (thorough) with output in 8 body positions; loops <= 2 iterations; operand kinds nil/int/bool (+float in thorough) symbolic, literal values symbolic",
+        "assumptions": ["reference evaluator (harness/internal/vsess/ref.go) is the Readme's semantics; left open by the language description and therefore not followed: shift counts outside 0..63, >> of negative ints, s[i] for non-ASCII bytes, lock-step loops over generators with side effects, read/exit"],
+    },
     "C05": {
         "runs": [
             {"harness": ["internal/vsess.VerifC05Expr"], "pkgs": ["./internal/vsess"], "fuel": 3000000,
@@ -111,6 +127,7 @@ CHECKS = {
 }
 
 LEVEL_TEXT = {
+    "C01": "Differential symbolic execution: the real pipeline and a reference evaluator written from the language description are both interpreted from SSA on the same generated tree with the same symbolic literals and preset globals; equality of error class, result value and written output is a solver-decided assertion for all values on every explored shape (promotion, overflow, zero divisors, index bounds, nil/type errors are models the solver must exclude).",
     "C12": "Implementation against implementation: two spellings of the same computation are compiled and run symbolically in two sessions sharing the same symbolic global values; equality of error class and of the result value for all operand kinds/values is a solver-decided assertion per explored shape. Conditions of if/while of symbolic kind must be errors exactly when the kind is not bool.",
     "C09": "The compiler and VM are executed symbolically on generated statements in used/discarded/returning positions; after every run (normal, return, runtime error) the operand stack pointer, frame stack, closure stack, live iterator contexts and the main instruction pointer are read through accessors and must be back at their idle values, and a loop run 1 vs N>128 times must leave the operand stack array equally long. Operand kinds and literal values are solver variables, so which branch of a conditional runs in an iteration is decided by the solver.",
     "C05": "The whole pipeline (symbol rewriting, bytecode compiler with its context flags and temp-register strategy, VM, value algebra, memory) is executed symbolically from SSA on generated syntax trees. Tree shapes and embeddings are enumerated by forking; operand kinds (nil/int/float/bool) and all literal payloads are solver variables, so e.g. a zero divisor, an index equal to the length or a NaN is a model the solver must exclude. Any feasible Go panic path, non-terminating run or undocumented error class is a violation, replayed natively.",
